@@ -12,7 +12,7 @@ from . import c16
 
 ID = "C11"
 MODULE = "LasioProofs.Props.C11"
-EXTRA_MODULES = ["LasioProofs.Props.C11File", "LasioProofs.Props.C11Data", "LasioProofs.Props.C01FileDlm"]
+EXTRA_MODULES = ["LasioProofs.Props.C11File", "LasioProofs.Props.C11Data", "LasioProofs.Props.C01FileDlm", "LasioProofs.Props.C11Refresh"]
 RULE = ("inputs x writer option sets x cycles: L0 = read(x); x1 = write(L0); L1 = read(x1); x2 = write(L1); L2 = read(x2); ... up to "
         "k = 4 re-reads.  Inputs: every file of tests/examples (unreadable / unwritable ones counted and skipped), generated documents "
         "(harness/lasdoc.gen_doc: section permutations, custom sections, fillers, DLM variants; c16.gen_text: right / wrong STOP, unit "
@@ -589,6 +589,6 @@ LEVEL_TEXT = ("Machine-checked Lean 4 theorems about the writer side of the cycl
               "their spelling (repr round trip is the hypothesis SpeltConf), non-conformant lines: covered by the oracle (real read / write "
               "cycles on the corpus, generated documents and their mutations) and by the correspondence of every write of every cycle with "
               "the compiled writer model.")
-LEVEL_NOTE = ("With the default `DLM . SPACE` item of lasio.LASFile() in ~Version (Props/C01FileDlm.lean, hypothesis DlmOK instead of 'no DLM item'): C03_file_dlm, C01_file_dlm(+_wrapYes, _unwrapped), C11_file_fixed_point_dlm / C11_file_iterate_dlm (all four steering values equal), C12_file_dlm; counter-examples DLM COMMA over blank-separated data (known finding dlm-not-space), DLM FOO (KeyError); two DLM items are ignored by the reader. proved: fixed-point properties of each writer-side ingredient, of a single conformant header line and of the whole written header "
+LEVEL_NOTE = ("THE REFRESH INSIDE THE CYCLE (Props/C11Refresh.lean): C11_refresh_stable (for a re-read object no refresh is decided iff float(STOP text) == float(last index token)), C11_refresh_prec5 (a refreshing write over an index printed with 5 decimals is never refreshed again), C11_prepare_noop, C11_cycle_fixed_point (header sections, steering values, data tokens and in-memory STRT/STOP/STEP of the next cycle are those of the re-read object); counter-examples replayed on lasio: the recorded finding sss-shift-after-lossy-index-format over four cycles (stable from the third), and the re-spelling 1.00000 -> 1.0 of refreshed values (numerically equal). With the default `DLM . SPACE` item of lasio.LASFile() in ~Version (Props/C01FileDlm.lean, hypothesis DlmOK instead of 'no DLM item'): C03_file_dlm, C01_file_dlm(+_wrapYes, _unwrapped), C11_file_fixed_point_dlm / C11_file_iterate_dlm (all four steering values equal), C12_file_dlm; counter-examples DLM COMMA over blank-separated data (known finding dlm-not-space), DLM FOO (KeyError); two DLM items are ignored by the reader. proved: fixed-point properties of each writer-side ingredient, of a single conformant header line and of the whole written header "
               "(all sections, every number of cycles) and of the whole written data section; oracle + correspondence only: the refresh of "
               "STRT/STOP/STEP and units within the composed cycle, text columns, non-conformant lines (the known findings).")
